@@ -86,9 +86,13 @@ func eval1(c Case) evid.Verdict {
 		want := padded(c.EType, plain)
 		switch c.Dir {
 		case "lib2ref":
+			plainBefore, keyBefore := append([]byte{}, plain...), append([]byte{}, key...)
 			ed, err := crypto.GetEncryptedData(plain, ek, c.Usage, 1)
 			if err != nil {
 				return evid.Fail(sig, "library failed to encrypt: %v", err)
+			}
+			if !bytes.Equal(plain, plainBefore) || !bytes.Equal(key, keyBefore) {
+				return evid.Fail(fmt.Sprintf("input-modified:etype%d", c.EType), "GetEncryptedData changed the plaintext or key buffer it was given")
 			}
 			if ed.EType != c.EType {
 				return evid.Fail(sig, "EncryptedData.EType=%d want %d", ed.EType, c.EType)
@@ -111,9 +115,13 @@ func eval1(c Case) evid.Verdict {
 			if err != nil {
 				return evid.Fail("harness", "reference failed to encrypt: %v", err)
 			}
+			ctBefore := append([]byte{}, ct...)
 			got, err := crypto.DecryptMessage(ct, ek, c.Usage)
 			if err != nil {
 				return evid.Fail(sig, "library cannot decrypt what the reference encrypted: %v (ct=%x)", err, ct)
+			}
+			if !bytes.Equal(ct, ctBefore) || !bytes.Equal(ek.KeyValue, key) {
+				return evid.Fail(fmt.Sprintf("input-modified:etype%d", c.EType), "DecryptMessage changed the ciphertext or key buffer it was given: ciphertext %x -> %x", ctBefore, ct)
 			}
 			if !bytes.Equal(got, want) {
 				return evid.Fail(sig, "library decrypted %x, want %x", got, want)
